@@ -251,10 +251,7 @@ pub fn execute(prop: &str, sc: &HsScript, opts: &ExecOpts) -> Outcome {
             fold(&mut out, prop, &r);
             match &r.value {
                 None => out.violate(prop, "scenario-timeout", &sig, "the scenario did not finish within 600 virtual seconds".into()),
-                Some(Err(e)) => {
-                    out.inconclusive = true;
-                    out.log.push(format!("setup error: {e:#}"));
-                }
+                Some(Err(e)) => setup_failed(&mut out, prop, "hostile-server", &sc.net, e),
                 Some(Ok(rep)) => {
                     th.bytes(rep.open.as_bytes());
                     th.bytes(rep.first_op.as_bytes());
